@@ -17,17 +17,55 @@ partial def parseErr (j : Json) : JE GoErr := do
 def parseLevel (j : Json) : JE Level := do
   pure { key := (← J.str j "key"), adaptors := (J.arrD j "adaptors").filterMap (fun a => a.getNat?.toOption) }
 
-/-- case: {"levels":[…outermost first…],"err":…,"graphLevel":bool,"target":n} -/
+/-- one event of the step model: {"k":key,"a":"use"} | {"k":key,"a":"use","panic":id} |
+    {"k":key,"a":"panic","id":id} | {"k":key,"a":"fail"} (returns the case's `err`) | {"k":key,"a":"done"} -/
+def parseEvent (e : GoErr) (j : Json) : JE (Key × Act) := do
+  let k ← J.str j "k"
+  match (← J.str j "a") with
+  | "use" =>
+    match (J.fieldD j "panic" Json.null).getNat? with
+    | .ok i => pure (k, .useState (some i))
+    | .error _ => pure (k, .useState none)
+  | "panic" => pure (k, .panicBody (← J.nat j "id"))
+  | "fail" => pure (k, .fail e)
+  | "done" => pure (k, .done)
+  | a => throw s!"bad act {a}"
+
+/-- case: {"levels":[…outermost first…],"err":…,"graphLevel":bool,"target":n}
+    optional: "events":[…], "order":[keys]: the tasks of the step in which the failing node of
+    the innermost level runs, as an interleaving of their user-code sites; the step model
+    (`stepResult` with the expected facts) then decides whether the step is reported at all
+    ("step": "reported" | "ok" | "hang" | "crash") and which error travels outwards. -/
 def handle (c : Json) : JE Json := do
   let levels ← (← J.arr c "levels").mapM parseLevel
   let e ← parseErr (← J.field c "err")
   let t ← J.nat c "target"
   let hu := Expected.C13.internalErrorHasUnwrap
-  let out := if J.boolD c "graphLevel" false then graphFailThrough hu levels e
-             else failThrough hu levels e
-  pure <| Json.mkObj [
-    ("is", Json.bool (errorsIs hu out t)),
-    ("path", J.mkStrs (nodePath out)),
-    ("interrupt", Json.bool (isInterrupt hu out))]
+  let evsJ := J.arrD c "events"
+  if evsJ.isEmpty then
+    let out := if J.boolD c "graphLevel" false then graphFailThrough hu levels e
+               else failThrough hu levels e
+    pure <| Json.mkObj [
+      ("is", Json.bool (errorsIs hu out t)),
+      ("path", J.mkStrs (nodePath out)),
+      ("interrupt", Json.bool (isInterrupt hu out))]
+  else
+    let evs ← evsJ.mapM (parseEvent e)
+    let order ← J.strList c "order"
+    let f : ExecFacts := { recovers := Expected.C13.execRecovers,
+                           handlerClean := Expected.C13.executorRecoverHandlerClean,
+                           unlockByDefer := Expected.C13.stateLocksReleasedByDefer }
+    match stepResult f hu Expected.C13.failedTaskReportedAsIs order evs with
+    | .hang => pure <| Json.mkObj [("step", "hang"), ("is", Json.bool false), ("path", J.mkStrs []), ("interrupt", Json.bool false)]
+    | .crash => pure <| Json.mkObj [("step", "crash"), ("is", Json.bool false), ("path", J.mkStrs []), ("interrupt", Json.bool false)]
+    | .reported none => pure <| Json.mkObj [("step", "ok"), ("is", Json.bool false), ("path", J.mkStrs []), ("interrupt", Json.bool false)]
+    | .reported (some se) =>
+      -- `se` already carries the key of the reported task (`wrapNode`); the enclosing levels follow
+      let out := failThrough hu levels.dropLast se
+      pure <| Json.mkObj [
+        ("step", "reported"),
+        ("is", Json.bool (errorsIs hu out t)),
+        ("path", J.mkStrs (nodePath out)),
+        ("interrupt", Json.bool (isInterrupt hu out))]
 
 end EinoV.Oracle.C13
